@@ -1400,6 +1400,73 @@ func terminalCallInTransport(id string, op string, how string) runner.Result {
 	return res
 }
 
+// manualFlushToggles: the flush mode is an option of the stream and can be switched with
+// SetManualFlush; what counts is the mode in force when a call is made. With the invoke still in the
+// writer (as a connection leaves it): a first receive puts it on the wire in either mode; a send
+// that returns nil has its message on the wire if the mode in force is automatic.
+func manualFlushToggles(id string, optManual bool, toggles []bool, first string) runner.Result {
+	var sink lockedBuffer
+	wr := drpcwire.NewWriter(&sink, 1<<16)
+	st := drpcstream.NewWithOptions(context.Background(), streamID, wr, drpcstream.Options{ManualFlush: optManual})
+	if err := st.RawWrite(drpcwire.KindInvoke, []byte("/rpc")); err != nil {
+		return runner.Inconcl(id, "setup write failed: "+err.Error())
+	}
+	manual := optManual
+	for _, t := range toggles {
+		st.SetManualFlush(t)
+		manual = t
+	}
+	where := fmt.Sprintf("[option ManualFlush=%v, SetManualFlush%v, invoke buffered, then %s first]", optManual, toggles, first)
+	kinds := func() (out []drpcwire.Kind) {
+		sink.mu.Lock()
+		b := append([]byte(nil), sink.b.Bytes()...)
+		sink.mu.Unlock()
+		for len(b) > 0 {
+			rem, fr, ok, err := drpcwire.ParseFrame(b)
+			if err != nil || !ok {
+				break
+			}
+			if fr.Done {
+				out = append(out, fr.Kind)
+			}
+			b = rem
+		}
+		return out
+	}
+	var fails []string
+	var recv *rig.Op
+	if first == "receive" {
+		recv = rig.Go("recv", func() (interface{}, error) {
+			var m []byte
+			return nil, st.MsgRecv(&m, payload.Enc{})
+		})
+		census.Quiesce(rig.Watchdog)
+		if k := kinds(); len(k) != 1 || k[0] != drpcwire.KindInvoke {
+			fails = append(fails, fmt.Sprintf("%s: a receive is waiting and the wire holds %v, want the buffered invoke: the peer has not been told about the rpc", where, k))
+		}
+	}
+	d := []byte("hello")
+	if err := st.MsgSend(&d, payload.Enc{}); err != nil {
+		fails = append(fails, fmt.Sprintf("%s: send failed: %v", where, err))
+	} else if k := kinds(); !manual && (len(k) != 2 || k[1] != drpcwire.KindMessage) {
+		fails = append(fails, fmt.Sprintf("%s: the send returned nil with automatic flushing in force and the wire holds %v, want the invoke and the message", where, k))
+	}
+	if recv != nil {
+		st.HandlePacket(drpcwire.Packet{ID: drpcwire.ID{Stream: streamID, Message: 1}, Kind: drpcwire.KindMessage, Data: payload.Make(1, 1, 0, 0, 5)})
+		census.Quiesce(rig.Watchdog)
+		if !recv.Returned() || recv.Err != nil {
+			fails = append(fails, fmt.Sprintf("%s: after the peer's message the receive returned=%v err=%v", where, recv.Returned(), recv.Err))
+		}
+	}
+	st.Cancel(errCancel)
+	if len(fails) > 0 {
+		return runner.Violation(id, "state-machine:flush-mode-in-force-not-honoured", strings.Join(fails, "\n"))
+	}
+	res := runner.Hold(id, where, true)
+	res.Events = int64(2 + len(toggles))
+	return res
+}
+
 // lockedBuffer is a bytes.Buffer safe for one writer and a reader of Len.
 type lockedBuffer struct {
 	mu sync.Mutex
@@ -1595,6 +1662,15 @@ func gen(tier string, seed uint64) []runner.Scenario {
 			how, end := how, end
 			id := fmt.Sprintf("shared-writer/%s/%s", how, end)
 			out = append(out, runner.Scenario{ID: id, Run: func() runner.Result { return sharedWriter(id, how, end) }})
+		}
+	}
+	for _, optManual := range []bool{false, true} {
+		for ti, toggles := range [][]bool{{}, {true}, {false}, {true, false}, {false, true}, {true, false, true, false}, {true, true, false}} {
+			for _, first := range []string{"receive", "send"} {
+				optManual, toggles, first := optManual, toggles, first
+				id := fmt.Sprintf("manual-flush-toggles/option=%v/%d/%s-first", optManual, ti, first)
+				out = append(out, runner.Scenario{ID: id, Run: func() runner.Result { return manualFlushToggles(id, optManual, toggles, first) }})
+			}
 		}
 	}
 	for _, op := range []string{"Close", "CloseSend", "SendError", "SendCancel"} {
